@@ -132,6 +132,13 @@ static void childMain(const std::string& prop, uint64_t seed,
                       const Json::Value* planIn) {
   alarm(60);
   std::set_terminate(onTerminate);
+  g_emitResultAndExit = []() {
+    R.in_daemon = false;
+    emitResult(R.violations.empty() ? "ok" : "violation");
+    if (g_dumpLog)
+      dumpLog();
+    _exit(0);
+  };
   const Prop* p = findProp(prop);
   if (!p) {
     writeAll(g_resultFd, "{\"status\":\"harness-error\",\"detail\":\"unknown "
